@@ -7,7 +7,7 @@ PROP = dict(
         "varq/varf/rvarf: variance_unbiased_form; map/img: coords_row_major, each_pixel_once, image_independent_of_schedule, "
         "constant_stream_mean, uniform_emitter_radiance; castq/camf: uncast_cast_id, matrix_inverse_correct; dircam: directional_camera_contains; "
         "treeq/treef/joinf/bvhf: joined_cast_is_nearest, filtered_cast_sound, bvh_cast_is_nearest; "
-        "treeq/treef/xprim: translated_cast_conj, matrix_cast_conj, matrix_normal_conformal; litf: lit_matte_surface_radiance"
+        "treeq/treef/xprim: translated_cast_conj, matrix_cast_conj, matrix_normal_conformal; litf: lit_matte_surface_radiance; bouncef: one_bounce_closed_form, focus_selection_intervals, source_density_is_mixture, mixture_importance_sampling_unbiased; pendf/densf/bptf: path_ender_cutoff_roulette, roulette_unbiased, mis_weights_sum_to_one, mis_estimator_unbiased; dircamf: directional_search_invariant, directional_camera_full_contains; imops/dsq/dsf: image_set_at, image_copy_from_spec, downsample_is_block_mean; treef/xprim normals: matrix_normal_inverse_transpose"
     ),
     rule=(
         "per seed: estimateColor of RecursiveRayTracer and BidirPathTracer through the verif hook with a scripted radiance stream "
@@ -19,20 +19,21 @@ PROP = dict(
         "answer is an affine function of the ray they receive (exact over Q with monomial power-of-two matrices, bit-for-bit over doubles otherwise); "
         "JoinedObject and BVHToObject over real Sphere/Rect/Triangle parts incl. duplicates; wrappers of real primitives vs the transformed primitive built "
         "directly (dyadic data); per-pixel RayCaster and RecursiveRayTracer(MaxDepth 0) values of lit matte spheres/boxes/triangles with and without occluders and 0-3 point lights (primitive Cast answers as oracle data, everything else recomputed bit-for-bit); whole images (RayCaster, RecursiveRayTracer, BidirPathTracer) of closed uniform emitters at GOMAXPROCS 1..16. "
+        "Round 2: one RecursiveRayTracer.recurse sample (MaxDepth 0-3, Cutoff, scripted materials, 0-2 scripted FocusPoints with FocusPointProbs, gen.Float64 replayed through a scripted rand.Source, every Cast of the real floor/light/enclosure scene recorded and replayed as the model's scene oracle) bit-for-bit; bptPathEnder with scripted coins; bptLightPath.Densities on random vertex data; BidirPathTracer.rayColor given the two sampled paths (hook re-samples them with the same seed) on floor + light panel (+ enclosure, + occluder) scenes, MaxDepth 1-3, MaxLightDepth 0-2, roulette on/off, visibility casts replayed; the whole of DirectionalCamera (NewCameraAt, Uncaster, 32 bisection steps) bit-for-bit; Image Set/At/SetAll/CopyFrom histories with out-of-bounds coordinates and Downsample (exact for factor 1,2,4; bit-for-bit otherwise); wrappers of real triangles/boxes under anisotropic scales and unit-determinant shears. "
         "distinct = distinct operation lines; non-trivial = early stop taken, >1 worker received, hit found, matrix wrapper present (see #stat counters)"
     ),
     trusted=[
         "modelled, not verified: float64 arithmetic is related to the field the theorems are proved over only through the two executions of the same generic model (Rat: exact on dyadic inputs; Float: bit-for-bit)",
         "modelled, not verified: the Go channel + WaitGroup of mapCoordinates as 'every queued entry is received by exactly one worker' (any assignment of queue positions to workers); scheduler, memory model and data-race freedom of img.Data[idx] writes belong to C13",
         "math.Tan (field of view -> plane distance), math.Sqrt and math/rand are parameters of the models (pd, sqrt, draw); Object.Cast of leaf primitives (Sphere/Rect/Triangle intersection, C07) is an oracle — the wrappers are proved correct relative to it",
-        "BidirPathTracer.rayColor (path sampling, multiple-importance weights) and materials/lights (C19) are not modelled; the bidirectional tracer is covered through the shared sampling loop (hook) and through uniform-emitter images only",
-        "DirectionalCamera's bisection is tied through its proved postcondition (the returned camera contains the box), not step by step",
+        "BidirPathTracer: the path *samplers* (sampleEyePath/sampleLightPath: material and light sampling, C19) are not modelled - their output vertices are data; the combination stage (allPathCombinations, combinePaths, EvalMaterial, Densities, balance-heuristic weighting, visibility test, pathEnder roulette) is modelled and tied bit-for-bit; PowerHeuristic != 0 (math.Pow) and RouletteDelta > 0 are not exercised",
+        "materials and focus points in the bounce/BPT kinds are harness-defined (constant BSDF/densities, formula samplers): what is tied is the estimator bookkeeping, not any physical material",
     ],
     assumptions=[
         "NaN/Inf radiance samples and NaN ray data are excluded",
         "uncast_cast_id needs non-parallel screen axes, positive image size, tan(fov/2) finite non-zero, and the point in front of the camera (t > 0)",
         "bvh_cast_is_nearest assumes each branch's bounding collider is hit by every ray that hits a leaf below it (checked on real Rect bounds by the bvhf kind)",
-        "matrix_normal_conformal covers rotations composed with uniform scalings (what Rotate/Scale produce); for a general MatrixMultiply matrix the reported normal m·n is not the geometric normal (outside the property statement)",
+        "mixture_importance_sampling_unbiased / mis_estimator_unbiased are exact expectations over finite outcome sets (the continuous integrals are not formalised)",
     ],
     level_text=(
         "Lean 4 theorems over every linearly ordered field, for all inputs: the sampling loop shared by both ray tracers returns exactly the arithmetic mean of "
@@ -40,13 +41,13 @@ PROP = dict(
         "on the true statistics after max(MinSamples,2) samples; estimateVariance is the unbiased sample variance; mapCoordinates hands every pixel index to exactly "
         "one worker for every worker count and interleaving and the image does not depend on the schedule; Uncaster inverts Caster for every camera/aspect/fov; "
         "DirectionalCamera's result contains the box; Joined/Filtered/BVH casts return the nearest hit among the leaves; Translate/MatrixMultiply cast exactly the "
-        "transformed surface (same parameter, image point, conformal normal); a closed uniform emitter renders to its emission. The models are tied to /repo on every "
+        "transformed surface (same parameter, image point, conformal normal); a closed uniform emitter renders to its emission; a lit matte surface renders to its closed form at MaxDepth 0 and, with one bounce onto an emitter chosen through FocusPoints, to emission + L*BSDF*cos/mixture-density, the mixture density being the density of the selection rule (exact unbiasedness over finite direction sets); the bidirectional tracer's balance-heuristic weights sum to one and its roulette compensation is unbiased; DirectionalCamera's bisection invariants; Image Set/CopyFrom/Downsample write each pixel as specified (block mean). The models are tied to /repo on every "
         "run by running the real code (hooks under build tag verif) and the same models on generated inputs: equality over Q on dyadic data, bit-for-bit over doubles."
     ),
     level_note=(
         "Proved about lean/M3d/Model/Render.lean; the correspondence makes the code agree with the model on the generated cases only. Trusted: Lean kernel, "
-        "propext/Classical.choice/Quot.sound, the Go harness and native driver, libm, the Go runtime's channel semantics. Not covered: BPT path weighting, "
-        "Monte-Carlo convergence of non-constant scenes (statistical; recursion with non-zero BSDF is modelled but tied only at MaxDepth 0 and for zero-BSDF emitters), image I/O. Two genuine defects were found by this "
-        "check and repaired in /repo (estimateColor count after early stop; DirectionalCamera field of view)."
+        "propext/Classical.choice/Quot.sound, the Go harness and native driver, libm, the Go runtime's channel semantics. Not covered: BPT path sampling and the power heuristic, "
+        "Monte-Carlo convergence of non-constant scenes (statistical; recursion with non-zero BSDF is modelled but tied only at MaxDepth 0 and for zero-BSDF emitters), image I/O. Three genuine defects were found by this "
+        "check and repaired in /repo (estimateColor count after early stop; DirectionalCamera field of view; MatrixMultiply normals)."
     ),
 )
